@@ -158,6 +158,8 @@ def make_class(spec):
             attrs[p['name']] = PersistentLimit()      # a persistent limit of the parameter defined before
             continue
         kw = {} if p.get('nodefault') else {'default': p['default']}     # (nodefault: the default of the datatype applies)
+        if p.get('hidden'):
+            kw['export'] = False       # an internal parameter (calibration, counter): not visible to clients, persistent all the same
         attrs[p['name']] = PersistentParam(f"persistent {p['name']}", specs.build(p['T']), persistent=p['persistent'],
                                            readonly=bool(p.get('readonly')), **kw)
         if p.get('write') and not p.get('readonly'):
@@ -243,7 +245,7 @@ def module_case(draw):
         params.append({'name': f'p{i}', 'T': T, 'default': draw(specs.valid_value(T, True)),
                        'persistent': draw(st.sampled_from(['on', 'auto', 'auto'])), 'write': draw(st.booleans()),
                        # read-only for clients and without write method: only the driver changes it (encoder, counter ...)
-                       'readonly': draw(st.integers(0, 3)) == 0})
+                       'readonly': draw(st.integers(0, 3)) == 0, 'hidden': draw(st.integers(0, 4)) == 0})
     for p in params:
         if p['T']['k'] in ('double', 'int', 'bool', 'string') and draw(st.integers(0, 3)) == 0:
             # declared without default: the parameter starts "not initialized" with the default of its datatype
@@ -309,6 +311,27 @@ def _check_module(ctx, case, workdir):
     else:
         ctx.ok('file-holds-current-values')
     final_values = snapshot_values(m, spec)
+    # ---- (2b) persistent='auto': every change is on disk at once, without an explicit save
+    try:
+        clean(workdir)
+        ma = new_module(cls, spec, workdir, spec.get('cfg'))
+        ma.writeInitParams()
+        ma.saveParameters()
+        byname_ = {p_['name']: p_ for p_ in spec['params']}
+        for step in spec['history']:
+            setattr(ma, step['param'], step['value'])
+            if byname_[step['param']]['persistent'] == 'auto':
+                ctx.ev()
+                disk = read_file(workdir)
+                if disk != ('ok', exported(ma, spec)):
+                    ctx.finding('auto-save:change-not-on-disk' + (':hidden-parameter' if byname_[step['param']].get('hidden') else ''), case,
+                                f'{step["param"]} = {step["value"]!r}: file {disk!r} vs {exported(ma, spec)!r}'[:400])
+                    break
+                ctx.ok('auto-saved')
+    except Exception as e:   # noqa
+        ctx.finding(f'auto-save:raises:{type(e).__name__}', case, repr(e)[:300])
+    clean(workdir)
+    m = run_history(cls, spec, workdir, spec['history'], None)
     # ---- (3b) reload at run time: after a power cycle of the hardware the driver sees the power-up values (here: the defaults,
     # not saved, as documented) and calls loadParameters() - also while the hardware does not accept writes yet.
     # every persistent parameter is back at the stored value, and the stored snapshot survives the next save
